@@ -1,0 +1,40 @@
+//go:build verif
+
+// Contracts for the deductive verifier in /verif (govc). This file is compiled only with
+// -tags verif and contains no production code: contracts are the //@ comment blocks, keyed by
+// function name; lemma harnesses (if any) are ordinary functions that call verifAssert.
+
+package uapolicy
+
+func verifAssert(label string, cond bool) {
+	if !cond {
+		panic("verif: assertion failed: " + label)
+	}
+}
+
+func verifCanary(label string, cond bool) {}
+
+// Representation invariant of a symmetric EncryptionAlgorithm as used by the secure channel:
+// AES-CBC with a 16 byte block and an HMAC-SHA1/SHA256 signature, or the None algorithm.
+//@ pred symAlgo(a *EncryptionAlgorithm) := a != nil &&
+//@     ((a.blockSize == 16 && a.plainttextBlockSize == 16 &&
+//@       (a.signatureLength == 20 || a.signatureLength == 32) &&
+//@       a.remoteSignatureLength == a.signatureLength) ||
+//@      (a.blockSize == 1 && a.plainttextBlockSize == 1 &&
+//@       a.signatureLength == 0 && a.remoteSignatureLength == 0))
+
+//@ func (*EncryptionAlgorithm).Signature
+//@   props C38 C07
+//@   assumed
+//@   requires e != nil
+//@   assigns e.signature
+//@   ensures err == nil ==> len(signature) == e.signatureLength && fresh(signature)
+//@   ensures err != nil ==> len(signature) == 0
+
+//@ func (*EncryptionAlgorithm).Encrypt
+//@   props C38 C07
+//@   assumed
+//@   requires e != nil
+//@   assigns e.encrypt
+//@   ensures err == nil && symAlgo(e) ==> len(ciphertext) == (len(cleartext) / e.plainttextBlockSize) * e.blockSize
+//@   ensures err == nil && symAlgo(e) ==> len(cleartext) % e.plainttextBlockSize == 0
